@@ -34,6 +34,7 @@ RULE = (
     " Seventeen values whose content does not suit their type go through eight wrapper operat"
     "ions (strict and lenient): refusing is fine, whatever is returned consists of built-in t"
     "ypes."
+    " A 2050-row (thorough 4100-row) table through bulktable, table and a two-root bulk walk."
 )
 ASSUMPTIONS = [
     "pythonisation per type: INTEGER/Counter/Gauge/Counter64 -> int, OCTET STRING/Opaque -> bytes, OID -> dotted str, IpAddress -> IPv4Address, TimeTicks -> timedelta(10 ms * t), NULL and exception markers -> None",
